@@ -404,7 +404,7 @@ def run(ctx):
     ctx.cov.update(dbe_k=k, generated_cases=len(cases), corpus_sources=len(files), targets=list(wfn.TARGETS))
     ctx.exhaustive = True
     ctx.rule = (
-        f"deviation-bounded enumeration k<={k} (plus the full products shell order x conventions [thorough: x contraction, and x orbital kind] and, for FCHK, conventions x stored density matrices x (Cartesian, pure) d shells [thorough: x every shell set]) over centers(6) x shell set(13) x contraction(5) x shell order(7) x conventions(10) x orbitals(15) x extras(11), every case fully crossed with the 5 dumpable "
+        f"deviation-bounded enumeration k<={k} (plus the full products shell order x conventions [thorough: x contraction, and x orbital kind] and, for FCHK, conventions x stored density matrices x (Cartesian, pure) d shells [thorough: x every shell set]) over centers(6) x shell set(13) x contraction(6) x shell order(7) x conventions(10) x orbitals(15) x extras(11), every case fully crossed with the 5 dumpable "
         f"wavefunction formats x allow_changes; plus {len(files)} corpus wavefunction files as sources x 5 x 2. Outcome must be an error or a file that reloads to the same nuclei and, for every orbital, "
         "the same values at 14 probe points (independent evaluator ref/gto.py on source and reloaded object), same occupations/energies/spin and same density for stored density matrices. "
         "Distinct = (deviation set or corpus file, target, allow_changes)."
